@@ -7,7 +7,7 @@ open Prophy WF Accept
 abbrev SizerAt (all : List Member) (allv : List Val) (n : String) (t : Ty) : Prop :=
   isSizer n all = true → ∃ p, t = .prim p ∧
     inRange p ((Spec.counter n all allv + sizerShift n all : Nat) : Int) = true ∧
-    Spec.counter n all allv + sizerShift n all ≤ guardLimit
+    Spec.counter n all allv ≤ guardLimit
 
 /-! ### `fieldDec` on arrays of non-byte elements -/
 theorem Py.fieldDec_fixed_arr (e : Endian) (all : List Member) (n : String) (t : Ty) (c : Nat) (f : Py.St) (data : Bytes)
